@@ -105,16 +105,42 @@ class C04(Prop):
                 xp = "?" + xp
             if rng.random() < 0.01:
                 xp, tag, pred = rng.choice(["", "?", " ", "/", "[", "//"]), "degenerate", None
+            tup = tag in ("resolves", "derived", "oob", "pred") and rng.random() < 0.06
             for kind in (0, 1, 2):
-                inp = {"tree": t, "mode": mode, "xpath": xp, "kind": kind}
+                inp = {"tree": t, "mode": "wrap" if tup else mode, "xpath": xp, "kind": kind}
+                if tup:
+                    # raw Python data with tuples where the lists are (n0dict(raw) without conversion); the model's value
+                    # type has no tuples, so these cases go to the oracle only
+                    inp["tuples"] = True
                 if pred:
                     inp["pred"] = pred
                 out.append({"stream": "lookup", "tag": "%s:%s" % (tag, root), "input": inp})
         return out
 
+    @staticmethod
+    def tuplify(v):
+        if isinstance(v, dict):
+            return {k: C04.tuplify(x) for k, x in v.items()}
+        if isinstance(v, list):
+            return tuple(C04.tuplify(x) for x in v)
+        return v
+
+    def build(self, i):
+        if i.get("tuples"):
+            import n0struct
+            t = self.tuplify(copy.deepcopy(i["tree"]))
+            return n0struct.n0dict(t) if isinstance(t, dict) else n0struct.n0list(list(t))
+        return X.build(i["tree"], i["mode"])
+
+    def coq_input(self, case):
+        if case["input"].get("tuples"):
+            raise L.Unrepresentable("tuples: oracle only")
+        i = case["input"]
+        return X.lookup_lit(X.build(i["tree"], i["mode"]), i["kind"], i["xpath"])
+
     def run_impl(self, case):
         i = case["input"]
-        obj = X.build(i["tree"], i["mode"])
+        obj = self.build(i)
         before = copy.deepcopy(X.plain(obj))
         case["_changed"] = None
         try:
@@ -123,7 +149,7 @@ class C04(Prop):
             case["_changed"] = not X.same(X.plain(obj), before)
             # what item access does on the same string, for the "default exactly when the path does not resolve" clause
             if i["kind"] != 0:
-                o2 = X.build(i["tree"], i["mode"])
+                o2 = self.build(i)
                 try:
                     case["_item"] = ("ok", o2[i["xpath"]])
                 except RecursionError:
@@ -132,10 +158,6 @@ class C04(Prop):
                     case["_item"] = ("raise", L.exn_name(e))
         case["_res"] = v
         return {"ok": ["l", 0, [L.canon(v), L.canon(obj)]]}
-
-    def coq_input(self, case):
-        i = case["input"]
-        return X.lookup_lit(X.build(i["tree"], i["mode"]), i["kind"], i["xpath"])
 
     def oracle(self, case, obs):
         i = case["input"]
